@@ -116,7 +116,7 @@ GROUPS = [
                     "the thorough tier and is listed exactly."),
 ]
 
-FIXED = ['fixed: property=C01 aeb17e8 F01 `a not in b == c` printed as `a in b == c` (operator of the outermost Binary used for every operand of a mixed comparison chain)', 'fixed: property=C03 a57c073 F06 `#f(a,\\n\\n b)` printed as `#f(a,  b)` and only converged on the next run (line() for a kept blank line under a flat group)', 'fixed: property=C04 ff2876a F07 `(/* c */x) => x` lost the parentheses of its single parameter; erroneous output with a line comment or at width 0', 'fixed: property=C04 ee58016 F09a `$e // c\\n$` printed as `$e // c$` (attached line comment before a tight closing delimiter)', 'fixed: property=C03 4cc58ca F10 `f(\\n x\\n /* c */\\n)` printed as `f(x/* c */ )`, then `f(x /* c */)`', 'fixed: property=C04 39d9bd0 F09b `mat(1, 2 // c\\n)` printed as `mat(1, 2 // c)`', 'fixed: property=C01 dab755f F11 `mat(mat(1, 2; 3, 4), 1; 2, 3)` lost the row separators of the nested call', 'fixed: property=C04 2f2f895 F13 `(import "a.typ":// c\\n (b, a))` printed as `import "a.typ": // c (`', 'fixed: property=C04 1fbd97c F12 `f(import "a.typ": (b, a), k: 1)` lost the parentheses of the import items', 'fixed: property=C03 1fa8855 F14 import items broken inside a break-suppressed context, re-laid out on the next run', 'fixed: property=C01 6043d11 F08 `mat(1, // c\\n 2; 3, 4)` printed as `2,; 3, 4` (extra empty cell)', 'fixed: property=C15 c2869ff F03 `format-all .` (any root whose own name starts with a dot) formatted nothing and exited 0', 'fixed: property=C15 c042115 F05 `format-all` skipped an unreadable (invalid UTF-8) .typ file silently and exited 0', 'fixed: property=C19 ce14a72 F15 `import "a.typ": /* about b */ b, a` reordered although the import contains a comment', 'fixed: property=C19 091c0e0 F16 import items sorted by their source text including blanks (`m .b` before `m.a`), differently on the next run', 'fixed: property=C06 8a75f5d F17 `#let v = a./* c */b` printed as `#let v = a.b` (comment dropped in a field access outside the chain layout)', 'fixed: property=C07 25e71c6 F21 a directive inside a disabled non-expression node (`a: /* @typstyle off */ (1,2,  3)` after an outer directive) was ignored', 'fixed: property=C08 d73029c F02 CR / VT / FF / NEL / LS / PS line endings: `a\\r\\rb` printed as `ab`, `// c\\r b` as `// c b`', 'fixed: property=C05 e22d97a F18 `$vec( )$` panicked in convert_args_in_math', 'fixed: property=C13 d4d0c87 F04 format_source_range panicked for a range ending past the end of the text', 'fixed: property=C13 f678879 F19 range formatting un-nested the sub-items of a list item (indent inferred from the blanks before the range)', 'fixed: property=C03 fd43440 F20 blank lines before and after a comma added up (`a\\n\\n\\n,\\n\\n b` kept 3 blank lines, next run 2)', 'fixed: property=C13 6395bf0 F22 range formatting inferred indentation 0 after CR / FF / NEL / LS / PS line endings (sub-items un-nested after the splice)', 'fixed: property=C03 6fce177 F23 `table.\\nheader([a])` / `table. cell(..)` not recognised as header / cell (func_name() was the callee source text); the table was laid out differently on the next run', 'fixed: property=C05 d5056ba F24 `#table(columns: 99999999999, [a])` aborted (1.6 TB allocation) and `columns: 9223372036854775807` panicked (capacity overflow): rows pre-allocated with the value of the literal', 'fixed: property=C01 4026319 F25 `#set text(red)[a]` printed as `#set text(red)`: the content blocks after the parentheses of a set rule were dropped', 'fixed: property=C01 2717db1 F26 `#(2)e3` printed as `#2e3`, `#(none)x` as `#nonex`, `$#(1.5)a$` as `$#1.5a$`: parentheses removed around a literal that text follows directly', 'fixed: property=C03 4d45b6e F27 `#(a1.bb2./* c1 *//* c2 */cccc3, z9)` broken at the dots printed `./* c1 *//* c2 */cccc3`, next run `./* c1 */ /* c2 */cccc3` (attached comments after a chain operator not spaced); found by TLC on DotChainMC (InvConvergence) before running the code']
+FIXED = ['fixed: property=C01 aeb17e8 F01 `a not in b == c` printed as `a in b == c` (operator of the outermost Binary used for every operand of a mixed comparison chain)', 'fixed: property=C03 a57c073 F06 `#f(a,\\n\\n b)` printed as `#f(a,  b)` and only converged on the next run (line() for a kept blank line under a flat group)', 'fixed: property=C04 ff2876a F07 `(/* c */x) => x` lost the parentheses of its single parameter; erroneous output with a line comment or at width 0', 'fixed: property=C04 ee58016 F09a `$e // c\\n$` printed as `$e // c$` (attached line comment before a tight closing delimiter)', 'fixed: property=C03 4cc58ca F10 `f(\\n x\\n /* c */\\n)` printed as `f(x/* c */ )`, then `f(x /* c */)`', 'fixed: property=C04 39d9bd0 F09b `mat(1, 2 // c\\n)` printed as `mat(1, 2 // c)`', 'fixed: property=C01 dab755f F11 `mat(mat(1, 2; 3, 4), 1; 2, 3)` lost the row separators of the nested call', 'fixed: property=C04 2f2f895 F13 `(import "a.typ":// c\\n (b, a))` printed as `import "a.typ": // c (`', 'fixed: property=C04 1fbd97c F12 `f(import "a.typ": (b, a), k: 1)` lost the parentheses of the import items', 'fixed: property=C03 1fa8855 F14 import items broken inside a break-suppressed context, re-laid out on the next run', 'fixed: property=C01 6043d11 F08 `mat(1, // c\\n 2; 3, 4)` printed as `2,; 3, 4` (extra empty cell)', 'fixed: property=C15 c2869ff F03 `format-all .` (any root whose own name starts with a dot) formatted nothing and exited 0', 'fixed: property=C15 c042115 F05 `format-all` skipped an unreadable (invalid UTF-8) .typ file silently and exited 0', 'fixed: property=C19 ce14a72 F15 `import "a.typ": /* about b */ b, a` reordered although the import contains a comment', 'fixed: property=C19 091c0e0 F16 import items sorted by their source text including blanks (`m .b` before `m.a`), differently on the next run', 'fixed: property=C06 8a75f5d F17 `#let v = a./* c */b` printed as `#let v = a.b` (comment dropped in a field access outside the chain layout)', 'fixed: property=C07 25e71c6 F21 a directive inside a disabled non-expression node (`a: /* @typstyle off */ (1,2,  3)` after an outer directive) was ignored', 'fixed: property=C08 d73029c F02 CR / VT / FF / NEL / LS / PS line endings: `a\\r\\rb` printed as `ab`, `// c\\r b` as `// c b`', 'fixed: property=C05 e22d97a F18 `$vec( )$` panicked in convert_args_in_math', 'fixed: property=C13 d4d0c87 F04 format_source_range panicked for a range ending past the end of the text', 'fixed: property=C13 f678879 F19 range formatting un-nested the sub-items of a list item (indent inferred from the blanks before the range)', 'fixed: property=C03 fd43440 F20 blank lines before and after a comma added up (`a\\n\\n\\n,\\n\\n b` kept 3 blank lines, next run 2)', 'fixed: property=C13 6395bf0 F22 range formatting inferred indentation 0 after CR / FF / NEL / LS / PS line endings (sub-items un-nested after the splice)', 'fixed: property=C03 6fce177 F23 `table.\\nheader([a])` / `table. cell(..)` not recognised as header / cell (func_name() was the callee source text); the table was laid out differently on the next run', 'fixed: property=C05 d5056ba F24 `#table(columns: 99999999999, [a])` aborted (1.6 TB allocation) and `columns: 9223372036854775807` panicked (capacity overflow): rows pre-allocated with the value of the literal', 'fixed: property=C01 4026319 F25 `#set text(red)[a]` printed as `#set text(red)`: the content blocks after the parentheses of a set rule were dropped', 'fixed: property=C01 2717db1 F26 `#(2)e3` printed as `#2e3`, `#(none)x` as `#nonex`, `$#(1.5)a$` as `$#1.5a$`: parentheses removed around a literal that text follows directly', 'fixed: property=C03 4d45b6e F27 `#(a1.bb2./* c1 *//* c2 */cccc3, z9)` broken at the dots printed `./* c1 *//* c2 */cccc3`, next run `./* c1 */ /* c2 */cccc3` (attached comments after a chain operator not spaced); found by TLC on DotChainMC (InvConvergence) before running the code', 'fixed: property=C13 5ab9bbb F28 range formatting of `(1)` in `x#(1)y` returned `1`: the splice `x#1y` changed the document (the embedded-literal rule of F26 was not applied to the node that range formatting converts)', 'fixed: property=C03 9d848c8 F29 `/* c1\\n<tab>\\n     c2 */`: a comment line holding only a tab counted for the common indentation, was stripped from the output, and the next run shifted the comment']
 
 LIST_SEEDS = ("mk-list", "mk-enum", "mk-term", "mk-mixed-list", "mk-cnt-list", "mk-list-code", "mk-list-cont", "mk-list-par",
               "mk-list-after")
@@ -139,6 +139,8 @@ def classify(prop, v, text):
     seed, ctx, triv = parts(v["id"])
     t = text or ""
     off = any(x.startswith("off") for x in triv) or seed.startswith("off-") or "@typstyle off" in t
+    if v["id"].startswith("beh:item:"):
+        return "G04-list-item-continuation-unit"
     if seed in ("m-hash-sub", "m-hash-sub2"):
         return "G12-math-hash-attach-blank"
     if seed == "mk-strong-list":
@@ -148,6 +150,17 @@ def classify(prop, v, text):
     if prop == "C13":
         return "G09-range-formatting-context"
     if prop == "C02":
+        # (the element id is prog:gap:<seed>:<ctx>:...)
+        pid = v["id"].split(":")
+        pseed = pid[2] if len(pid) > 2 else ""
+        if pseed in ("m-hash-sub", "m-hash-sub2"):
+            return "G12-math-hash-attach-blank"
+        if pseed == "mk-strong-list":
+            return "G13-strong-with-list-marker"
+        if pseed in STRIP_SEEDS:
+            return "G01-strip-edits-content"
+        if pseed in LIST_SEEDS:
+            return "G04-list-item-continuation-unit"
         return "G11-content-edge-whitespace-observable"
     if prop == "C12" and (seed.startswith("m-") or seed.startswith("cm-math") or seed == "cm-markup-ml") and not off:
         return "G08-flow-line-comment-indent"
